@@ -313,3 +313,72 @@ Section Flatten.
       destruct (codec =? codec_sorted); [apply spec_digest_perm|apply spec_mh_perm]; symmetry; exact Hp.
   Qed.
 End Flatten.
+
+(* ---- what canon may change: only the order inside runs of equal digests ------------------------- *)
+Definition rec_of_entry (e : entry) : irec := mkrec [] 0 (fst e) (snd e).
+
+Lemma compact_of_entries es : compact_entries es = compact (map rec_of_entry es).
+Proof. unfold compact_entries, compact. rewrite map_map. reflexivity. Qed.
+
+Lemma entry_of_rec_of_entry es : map entry_of (map rec_of_entry es) = es.
+Proof. rewrite map_map. induction es as [|[d o] es IH]; cbn [map]; [reflexivity|]. rewrite IH. reflexivity. Qed.
+
+Theorem swi_canon_foreach w l : 8 <= w -> all_width w l -> offs_ok l -> digest_sorted l ->
+  Permutation (swi_foreach (swi_canon (w, compact l))) (swi_foreach (w, compact l)) /\
+  map fst (swi_foreach (swi_canon (w, compact l))) = map fst (swi_foreach (w, compact l)).
+Proof.
+  intros Hw Hl Ho Hs. rewrite swi_canon_compact by assumption.
+  rewrite (swi_foreach_compact w l Hw Hl Ho).
+  set (es := sort_entries (map entry_of l)).
+  assert (Hp : Permutation es (map entry_of l)) by apply sort_entries_perm.
+  rewrite compact_of_entries.
+  assert (Hl' : all_width w (map rec_of_entry es)).
+  { unfold all_width. apply Forall_forall. intros r Hr. apply in_map_iff in Hr. destruct Hr as (e & <- & He).
+    apply (Permutation_in _ Hp) in He. apply in_map_iff in He. destruct He as (r0 & <- & Hr0).
+    unfold all_width in Hl. rewrite Forall_forall in Hl. apply (Hl r0 Hr0). }
+  assert (Ho' : offs_ok (map rec_of_entry es)).
+  { unfold offs_ok. apply Forall_forall. intros r Hr. apply in_map_iff in Hr. destruct Hr as (e & <- & He).
+    apply (Permutation_in _ Hp) in He. apply in_map_iff in He. destruct He as (r0 & <- & Hr0).
+    unfold offs_ok in Ho. rewrite Forall_forall in Ho. apply (Ho r0 Hr0). }
+  rewrite (swi_foreach_compact w _ Hw Hl' Ho'), entry_of_rec_of_entry.
+  split; [exact Hp|]. apply canon_keeps_digests. apply digest_sorted_entries. exact Hs.
+Qed.
+
+(* ---- the width limit of Unmarshal (the boundary of the round trip) -------------------------------- *)
+Lemma swi_unmarshal_rejects_wide w data rest : max_width < w -> w < two32 ->
+  swi_unmarshal (swi_marshal (w, data) ++ rest) = Err EOther.
+Proof.
+  intros Hw H32. unfold swi_unmarshal, swi_marshal. cbn [fst snd]. rewrite <- !app_assoc.
+  replace (blen (le_enc 4 w ++ le_enc 8 (blen data) ++ data ++ rest) <? 4) with false
+    by (rewrite blen_app, blen_le_enc; lia).
+  assert (H4 : w < 256 ^ N.of_nat 4) by (unfold two32 in H32; change (256 ^ N.of_nat 4) with 4294967296; lia).
+  destruct (le_field 4 w (le_enc 8 (blen data) ++ data ++ rest) H4) as [E1 E2].
+  change (N.of_nat 4) with 4 in E1, E2. rewrite E1, E2.
+  replace (blen (le_enc 8 (blen data) ++ data ++ rest) <? 8) with false
+    by (rewrite blen_app, blen_le_enc; lia).
+  replace (w <? 8) with false by (unfold max_width in Hw; lia).
+  replace (max_width <? w) with true by lia. reflexivity.
+Qed.
+
+(* ---- the statements of props/C11.v, assembled ----------------------------------------------------- *)
+Lemma c11_roundtrip (srt : list irec -> list irec) codec i0 rs rest :
+  sort_contract srt -> idx_new codec = Some i0 -> Forall rec_ok rs -> fits codec rs ->
+  idx_read (idx_write (idx_load_with srt rs i0) ++ rest) = Ok (idx_load_with srt rs i0, rest).
+Proof. intros Hs Hn Hok Hfit. apply idx_read_write. eapply idx_load_fresh_wf; eassumption. Qed.
+
+Lemma c11_order_independent (srt srt' : list irec -> list irec) i0 rs rs' :
+  sort_contract srt -> sort_contract srt' -> idx_keys_sorted i0 -> Forall rec_ok rs -> Permutation rs rs' ->
+  idx_write (idx_canon (idx_load_with srt rs i0)) = idx_write (idx_canon (idx_load_with srt' rs' i0)).
+Proof. intros H1 H2 H0 Hok Hp. f_equal. apply idx_load_canon_perm; assumption. Qed.
+
+Lemma c11_bytes_equal (srt srt' : list irec -> list irec) codec i0 rs rs' :
+  sort_contract srt -> sort_contract srt' -> idx_new codec = Some i0 -> Permutation rs rs' ->
+  NoDup (map (rec_key codec) rs) ->
+  idx_write (idx_load_with srt rs i0) = idx_write (idx_load_with srt' rs' i0).
+Proof. intros H1 H2 Hn Hp Hnd. f_equal. eapply idx_load_eq_noties; eassumption. Qed.
+
+Lemma c11_flatten_lookups (srt srt' : list irec -> list irec) codec i0 rs code d :
+  sort_contract srt -> sort_contract srt' -> idx_new codec = Some i0 -> Forall rec_ok rs -> recs_fit rs ->
+  exists fi, ii_flatten_with srt codec (ii_load rs []) = Some fi /\
+             Permutation (idx_getall fi code d) (idx_getall (idx_load_with srt' rs i0) code d).
+Proof. intros H1 H2 Hn Hok Hfit. apply flatten_getall_regen; assumption. Qed.
